@@ -6,7 +6,8 @@ the C08 protocol and runner with half of the children display:none; the hidden +
 with C01 (dirty flags of histories vs Model/Engine.v incl. hide, + trace validation of WF / H1, premises of
 C05_pass_establishes_hidden_zero);
 search: metamorphic oracle on FRESH trees through the public API (`vh c05 oracle`): every node of a display:none region has an
-all-zero layout; replacing one display:none node by a bare display:none leaf changes no other node's layout, bit for bit."""
+all-zero layout; replacing one display:none node by a bare display:none leaf changes no other node's layout, bit for bit; the zero
+clause again after a node that was laid out visible is hidden through set_style; queries to hidden children are canonical (trace)."""
 from ..common import *
 from ..stages import *
 from ..engine_k import engine_correspondence
@@ -81,8 +82,11 @@ def run(rep, tier, seed, replay=None):
     rep.cov['oracle_nodes_compared_bitwise'] = o['done'][1]
     rep.cov['oracle_hidden_region_nodes_checked_zero'] = o['done'][2]
     rep.cov['oracle_both_runs_panicked'] = o['done'][3]
+    rep.cov['oracle_hidden_child_queries_validated_canonical'] = o['done'][4] if len(o['done']) > 4 else 0
     rep.cov['oracle_distribution'] = o['stat']
     rep.cov['evaluations'] = rep.cov.get('evaluations', 0) + o['done'][0]
+    rc1, out1 = vh(binp, ['c05', 'one', oseed, start])
+    rep.cov['samples'].append({'oracle_case': 'vh c05 one %d %d' % (oseed, start), 'tree_and_verdict': out1[:1800]})
     for f in o['fail'][:4]:
         rep.add_violation('display:none subtree is not zeroed / not invisible: %s' % f['line'][:700],
                           {'seed': oseed, 'idx': f['idx'], 'cmd': 'vh c05 one %d %d' % (oseed, f['idx'])})
@@ -132,4 +136,5 @@ def run(rep, tier, seed, replay=None):
                        'distinct cases with a display:none child that has a non-auto placement.  K(b): engine histories (see C01).  search: `vh c05 oracle`: '
                        'treegen trees (<= 14 nodes, depth <= 4, flex/grid/block, p_hidden 18%, a hidden node forced if none; 1/64 with a hidden ROOT), the '
                        'target made loud (definite grid lines, sizes, margins, flex grow) with p=1/2; (i) every node of a display:none region all-zero '
-                       '(unrounded and rounded, `order` free); (ii) target replaced by a bare display:none leaf, rebuilt, all other nodes compared bit for bit')
+                       '(unrounded and rounded, `order` free); (ii) target replaced by a bare display:none leaf, rebuilt, all other nodes compared bit for bit; (iii) laid out with the target visible, '
+                       'target hidden through set_style, laid out again: zero clause again; every traced query to a display:none child must be the canonical one')
